@@ -14,6 +14,8 @@ def gen_boundary(rng):
         return "interior-hyphens", "ab-cd-" + "".join(rng.choice(BCHARS[:62]) for _ in range(rng.range(1, 8))) + "-x"
     if k == 2:
         return "punctuation", "".join(rng.choice("'()+_,./:=?" + BCHARS[:20]) for _ in range(rng.range(2, 30)))
+    if k == 7 and rng.chance(1, 2):
+        return "mime-style", rng.choice(["----=_NextPart_", "=_", "==", "b=", "=b"]) + "".join(rng.choice(BCHARS[:62] + "_.=") for _ in range(rng.range(1, 20)))
     if k == 3:
         return "one-char", rng.choice(BCHARS[:62])
     if k == 4:
@@ -145,8 +147,10 @@ def run(c):
         if occurs(b, parts):
             continue
         delim = "--" + b
-        for spelling, pb in (("delimiter", delim), ("browser-parameter", b)):
+        for spelling, pb in (("delimiter", delim), ("browser-parameter", b), ("content-type-header", "CT:multipart/form-data; boundary=" + b)):
             cid = "m%d%s" % (i, spelling[0])
+            if spelling == "content-type-header" and (b.endswith(" ") or ";" in b):
+                continue
             cases.append(core.Case(cid, "mp.roundtrip", fields_of(delim, pb, parts)))
             meta[cid] = (bclass, b, parts, spelling)
     for cat in ("empty body", "body ending CR", "body ending LF", "body ending CRLF", "boundary with interior hyphens", "browser-style parameter", "rejection: no opening boundary", "rejection: no closing boundary", "rejection: header-less part"):
